@@ -19,6 +19,10 @@
 (*   handler that reads nothing) certainly overruns: both must be answered  *)
 (*   with FLOW_CONTROL_ERROR; an honest peer never draws one.               *)
 (*                                                                         *)
+(* The same ledger serves both roles of the implementation: the server     *)
+(* (peer = the raw-frame client of the harness) and the client transport    *)
+(* (peer = a raw-frame server of the harness; "open" is logged when the     *)
+(* transport's HEADERS arrive, "data" is request body).                     *)
 (* Used for trace validation only: events are the client script's own log   *)
 (* in its own program order.  Flow.tla is the endpoint's internal model;    *)
 (* its invariant PeerLedgerAgrees is the bridge between the two views.      *)
@@ -36,7 +40,7 @@ Ev == TraceLog[l]
 Zero == [s \in Streams |-> 0]
 No == [s \in Streams |-> FALSE]
 
-Fresh == [sw |-> Zero, cw |-> 65535, maxFrame |-> 16384, initw |-> 65535, pendingInit |-> -1,
+Fresh == [sw |-> Zero, cw |-> 65535, maxFrame |-> 16384, pendingMF |-> -1, initw |-> 65535, pendingInit |-> -1,
           body |-> Zero, got |-> Zero, ended |-> No, reset |-> No,
           opened |-> {}, mustErr |-> {}, mayErr |-> {}, fcDone |-> {},
           upSent |-> 0, creditC |-> 0, grant |-> 0, advC |-> 65535, advS |-> Zero, dead |-> FALSE, lastOp |-> "reset"]
@@ -64,9 +68,16 @@ Adjust(delta) == [s \in Streams |-> IF s \in OpenStreams THEN st.sw[s] + delta E
 DoInitSend == IF Ev.v >= st.initw
               THEN Step("initwin_send", [st EXCEPT !.sw = Adjust(Ev.v - st.initw), !.initw = Ev.v, !.pendingInit = -1])
               ELSE Step("initwin_send", [st EXCEPT !.pendingInit = Ev.v])
-DoInitAck == IF st.pendingInit >= 0
-             THEN Step("initwin_ack", [st EXCEPT !.sw = Adjust(st.pendingInit - st.initw), !.initw = st.pendingInit, !.pendingInit = -1])
-             ELSE Step("initwin_ack", st)
+\* a SETTINGS acknowledgement: reductions the peer announced (window, maximum frame size) bind from here on
+DoInitAck == LET mf == IF st.pendingMF >= 0 THEN st.pendingMF ELSE st.maxFrame IN
+             IF st.pendingInit >= 0
+             THEN Step("initwin_ack", [st EXCEPT !.sw = Adjust(st.pendingInit - st.initw), !.initw = st.pendingInit, !.pendingInit = -1,
+                                                 !.maxFrame = mf, !.pendingMF = -1])
+             ELSE Step("initwin_ack", [st EXCEPT !.maxFrame = mf, !.pendingMF = -1])
+\* SETTINGS_MAX_FRAME_SIZE announced by the peer: a larger value may be used as soon as it is seen, a smaller one binds once acknowledged
+DoMFSend == IF Ev.v >= st.maxFrame
+            THEN Step("mf_send", [st EXCEPT !.maxFrame = Ev.v, !.pendingMF = -1])
+            ELSE Step("mf_send", [st EXCEPT !.pendingMF = Ev.v])
 
 DoUpData == IF Ev.overrun
             THEN Step("up_data", [st EXCEPT !.mustErr = @ \cup {Ev.s}, !.upSent = @ + Ev.n])
@@ -103,6 +114,7 @@ Next == /\ l <= Len(TraceLog) /\ l' = l + 1
              [] Ev.op = "wu" -> DoWU
              [] Ev.op = "initwin_send" -> DoInitSend
              [] Ev.op = "initwin_ack" -> DoInitAck
+             [] Ev.op = "mf_send" -> DoMFSend
              [] Ev.op = "data" -> DoData
              [] Ev.op = "rst" -> DoRst
              [] Ev.op = "goaway" -> DoGoAway
